@@ -311,6 +311,12 @@ def _():
     return (_grouped_df(), ["g1"], "seq"), {"group_weights": [1, 2]}
 
 
+@spec("pc_conditional_weights_ndarray", ST + "pc_conditional")
+def _():
+    import numpy as np
+    return (_grouped_df(), "g1", ["seq", "f"]), {"group_weights": np.array([3.0, 1.0])}
+
+
 @spec("pc_grouped_cross", ST + "pc_grouped_cross")
 def _():
     return (_grouped_df(), "g1", ["seq", "f"]), {}
@@ -532,6 +538,21 @@ def _():
     return (_many(700, 10),), {"n_cpu": 2}
 
 
+@spec("hierarchical_single_sequence_raises", DI + "hierarchical_clustering")
+def _():
+    return (["CASSF"],), {}
+
+
+@spec("hierarchical_empty_raises", DI + "hierarchical_clustering")
+def _():
+    return ([],), {}
+
+
+@spec("hierarchical_callers_dicts", DI + "hierarchical_clustering")
+def _():
+    return (list(SEQS),), {"linkage_kws": {"method": "complete", "optimal_ordering": False}, "cluster_kws": {"t": 0, "criterion": "distance"}}
+
+
 @spec("hierarchical_kws", DI + "hierarchical_clustering")
 def _():
     return (_tcr_df(),), {"linkage_kws": {"method": "single"}, "cluster_kws": {"t": 2, "criterion": "maxclust"}}
@@ -569,6 +590,18 @@ def _():
 def _():
     df = _tcr_df()[["TRBV", "CDR3B"]]
     return (), {"cdr2_weight": 4}, "calc_cdist_matrix", (df, df.iloc[:2]), {}
+
+
+@spec("cdr_levenshtein_allele01", "pyrepseq.metric.tcr_metric:CdrLevenshtein")
+def _():
+    rows = [["TRAV1-1*01", "CAVRDF", "TRBV19*01", "CASSF"], ["TRAV2*01", "CAVF", "TRBV7-7*01", "CASSLGF"], ["TRAV12-2*01", "CAAF", "TRBV9*01", "CASF"]]
+    return (), {}, "calc_cdist_matrix", (_tcr_df(rows), _tcr_df(rows[:2])), {}
+
+
+@spec("cdr_levenshtein_allele02", "pyrepseq.metric.tcr_metric:CdrLevenshtein")
+def _():
+    rows = [["TRAV1-1*02", "CAVRDF", "TRBV19*02", "CASSF"], ["TRAV2*02", "CAVF", "TRBV7-7*02", "CASSLGF"], ["TRAV12-2*02", "CAAF", "TRBV9*02", "CASF"]]
+    return (), {}, "calc_cdist_matrix", (_tcr_df(rows), _tcr_df(rows[:2])), {}
 
 
 @spec("tcr_metric_rejects_list", "pyrepseq.metric.tcr_metric:BetaCdr3Levenshtein")
@@ -694,6 +727,18 @@ def _new_ax():
 def _():
     import numpy as np
     return (np.array([5, 1, 3, 3, np.nan, 10, 1.0]),), {"ax": _new_ax(), "normalize_y": True, "scalex": 2.0}
+
+
+@spec("rankfrequency_unsorted_no_nan", PL + "rankfrequency", lambda lines: {"lines": [canon(l) for l in lines]}, fig=True)
+def _():
+    import numpy as np
+    return (np.array([5.0, 1.0, 3.0, 3.0, 10.0, 1.0]),), {"ax": _new_ax(), "normalize_x": False}
+
+
+@spec("rankfrequency_series", PL + "rankfrequency", lambda lines: {"lines": [canon(l) for l in lines]}, fig=True)
+def _():
+    import pandas as pd
+    return (pd.Series([7, 2, 9, 2, 4], index=list("vwxyz")),), {"ax": _new_ax(), "normalize_x": False, "log_x": False}
 
 
 @spec("labels_hls_seeded", PL + "labels_to_colors_hls", np_seed=21)
